@@ -413,12 +413,15 @@ class PipelineCorr(Corr):
                 f"check_pipeline CENTERDISTANCE P_{case['policy']} {blit(case['fpv'])} F T ests gts crit pf det {o})")
 
     def coq_debug(self, case, obs):
-        lets, _ = self._lets(obs)
-        return (f"{lets}(scene_ok F T ests gts, get_object_results CENTERDISTANCE P_{case['policy']} {blit(case['fpv'])} F, "
-                f"match add_frame_result CENTERDISTANCE P_{case['policy']} {blit(case['fpv'])} F T ests gts crit pf det with "
+        # beta-redexes instead of `let`: elaborating a tuple under `let`-bound literals of this size exhausts memory
+        ests, gts, facts, tables, crit, pf, det = scene_terms(obs)
+        pol, fpv = f"P_{case['policy']}", blit(case["fpv"])
+        body = (f"(scene_ok F T ests gts, get_object_results CENTERDISTANCE {pol} {fpv} F, "
+                f"match add_frame_result CENTERDISTANCE {pol} {fpv} F T ests gts crit pf det with "
                 f"| Done fr cm pm => Some (map res_pair (f_results fr), ids (f_gts fr), map res_pair (f_tp fr), map res_pair (f_fp fr), "
                 f"ids (f_tn fr), ids (f_fn fr), map (fun m => (mo_nums m, map AP.tp_list (mo_aps m), map AP.ap (mo_aps m), map AP.ap (mo_aphs m), mo_map m)) (cm ++ pm)) "
                 f"| _ => None end)")
+        return (f"(fun ests gts => (fun F T crit pf det => {body}) {facts} {tables} {crit} {pf} {det}) {ests} {gts}")
 
     # ---- the properties, stated on the implementation's outputs
     def oracle(self, case, obs):
